@@ -139,6 +139,7 @@ let pk_of_spec p s : M.publicKey M.res =
   | ("r", xi) -> bind (gen p xi) (fun (pk, _) -> bind (M.pk_into_bytes p pk) (fun b -> M.pk_try_from_bytes hh p b))
   | ("d", xi) -> bind (gen p xi) (fun (_, sk) -> M.get_public_key hh p sk)
   | ("e", xi) -> bind (sk_of_spec p ("r:" ^ xi)) (fun sk -> M.get_public_key hh p sk)
+  | ("f", xi) -> bind (gen p xi) (fun (_, sk) -> bind (M.get_public_key hh p sk) (fun pk -> bind (M.pk_into_bytes p pk) (fun b -> M.pk_try_from_bytes hh p b)))
   | ("db", h) -> bind (M.sk_try_from_bytes p (bytes_of_hex h)) (fun sk -> M.get_public_key hh p sk)
   | _ -> failwith "bad pk spec"
 
